@@ -53,6 +53,40 @@ fn sig(c: &c11::InitCase, reason: &str) -> String {
     format!("c17:{}:{}", c.cfg.model.name(), r)
 }
 
+// ---- a second init over an interface object that has been used (Builder::new(model, &mut interface))
+
+#[derive(Clone, Debug, PartialEq, Eq, Hash, serde::Serialize, serde::Deserialize)]
+pub struct ReuseCase {
+    pub cfg: Config,
+    /// what the first display did before it was dropped (see c12::use_display)
+    pub usage: u8,
+}
+
+pub fn check_reuse(c: &ReuseCase, info: &mut CaseInfo) -> Result<(), String> {
+    crate::dut::install_panic_hook();
+    let w = new_world(&c.cfg);
+    let r = std::panic::catch_unwind(std::panic::AssertUnwindSafe(|| super::c12::reinit_after_use(&c.cfg, &w, c.usage)));
+    let trace = match r {
+        Ok(t) => t?,
+        Err(_) => return Err("init over a used interface panicked".into()),
+    };
+    let wb = w.borrow();
+    if let Some(e) = wb.decode_errors.first() {
+        return Err(format!("second init over an interface used before (usage {}): bus decode error: {}", c.usage, e));
+    }
+    c11::judge_reset(&wb, &c.cfg, &trace).map_err(|e| format!("second init over an interface used before (usage {}): {}", c.usage, e))?;
+    if c.cfg.transport.pin_level() && !c.cfg.reset_pin {
+        match wb.latch_log.first() {
+            Some((false, 0x01)) => {}
+            other => return Err(format!("second init over an interface used before (usage {}): first word latched by the controller is {:?}, expected the software-reset instruction (D/C low, 0x01)", c.usage, other)),
+        }
+    }
+    info.nontrivial = true;
+    info.label(c.cfg.transport.label());
+    info.label(if c.cfg.reset_pin { "reset-pin" } else { "software-reset" });
+    Ok(())
+}
+
 pub fn run(ctx: &Ctx) -> Report {
     let mut rep = Report::new("C17", "exploration");
     rep.assumptions = vec![
@@ -76,9 +110,41 @@ pub fn run(ctx: &Ctx) -> Report {
     sec.exhaustive = true;
     run_enumerated(&mut sec, c11::option_product(&models, &vias, true, ctx.seed ^ 17), ctx.workers, check, sig);
     rep.sections.push(sec);
+
+    let mut sec = Section::new(
+        &format!("init-over-a-used-interface[{}]", ctx.variant),
+        "every built-in model x SPI (8-byte buffer) / 8-bit / 16-bit parallel at pin level x reset pin yes/no x 6 kinds of use of a first display built over `&mut interface` (nothing, an empty pixel stream, one pixel, pixel then empty stream, clear, empty stream then a command) x 2 orientations: the second init is judged by the same reset-first oracle (the interface object may carry state from its earlier use)",
+    );
+    sec.exhaustive = true;
+    let mut cases = Vec::new();
+    for &m in &models {
+        for t in [Transport::Spi { buf: 8 }, Transport::Par8, Transport::Par16] {
+            if !type_compatible(m, t) || !supported(m, t.kind()) {
+                continue;
+            }
+            for reset_pin in [false, true] {
+                for usage in 0..6u8 {
+                    for orient in [Orient::ALL[0], Orient::ALL[5]] {
+                        let mut cfg = Config::full(m, t);
+                        let (fw, fh) = m.fb();
+                        cfg.w = fw.min(9);
+                        cfg.h = fh.min(7);
+                        cfg.orient = orient;
+                        cfg.reset_pin = reset_pin;
+                        cases.push(ReuseCase { cfg, usage });
+                    }
+                }
+            }
+        }
+    }
+    run_enumerated(&mut sec, cases, ctx.workers, check_reuse, |c, r| format!("c17:reuse:{}:{}", c.cfg.model.name(), r.chars().take(30).collect::<String>()));
+    rep.sections.push(sec);
     rep
 }
 
-pub fn replay(_section: &str, case: &Value) -> Result<(), String> {
+pub fn replay(section: &str, case: &Value) -> Result<(), String> {
+    if section.starts_with("init-over-a-used-interface") {
+        return check_reuse(&de::<ReuseCase>(case)?, &mut CaseInfo::default());
+    }
     check(&de::<c11::InitCase>(case)?, &mut CaseInfo::default())
 }
